@@ -333,14 +333,19 @@ def kernels_numeric(ctx):
                 ctx.ensure("det:agrees-with-numpy", np.allclose(d, np.linalg.det(A), rtol=1e-7, atol=1e-300), witness=dict(n=n, batch=N, scale=scale))
                 adj = um.adjugate(A)
                 ctx.ensure("adjugate:A.adj(A)==det.I", np.allclose(np.matmul(A, adj), d[:, None, None] * np.eye(n), rtol=1e-7, atol=1e-9 * float(np.abs(A).max()) ** n), witness=dict(n=n, batch=N, scale=scale))
-    mats = [np.array([[1, 2, 3], [2, 4, 6]]), np.array([[1, 0, 0, 1], [0, 1, 0, 1]]), np.array([[1, 2, 3, 4]]), np.array([[1, 0, 2], [0, 1, 1], [1, 1, 3]])]
+    mats = [np.array([[1, 2, 3], [2, 4, 6]]), np.array([[1, 0, 0, 1], [0, 1, 0, 1]]), np.array([[1, 2, 3, 4]]), np.array([[1, 0, 2], [0, 1, 1], [1, 1, 3]]),
+            # trivial kernel (full column rank: invertible, tall) and the zero matrix (full kernel), real and complex, also as a batch
+            np.array([[2, 1], [1, 3]]), np.array([[1, 0, 2], [0, 1, 1], [1, 1, 4]]), np.array([[1, 0], [0, 1], [2, 3]]), np.array([[1.0 + 1j, 0], [0, 2j], [1, 1]]), np.zeros((2, 3)),
+            np.array([[1, 2, 0, 0, 1], [0, 1, 1j, 0, 2]])]
     for Mx in mats:
         rk = np.linalg.matrix_rank(Mx)
         Q = um.null_space(Mx)
-        ctx.ensure("null_space:orthonormal-basis-of-the-kernel", Q.shape == (Mx.shape[1], Mx.shape[1] - rk) and np.allclose(Mx @ Q, 0, atol=1e-9) and np.allclose(Q.T @ Q, np.eye(Q.shape[1]), atol=1e-9),
-                   witness=dict(matrix=Mx.tolist(), got=Q.tolist()))
+        ctx.ensure("null_space:orthonormal-basis-of-the-kernel", Q.shape == (Mx.shape[1], Mx.shape[1] - rk) and np.allclose(Mx @ Q, 0, atol=1e-9) and np.allclose(Q.conj().T @ Q, np.eye(Q.shape[1]), atol=1e-9),
+                   witness=dict(matrix=str(Mx.tolist()), got=str(Q.tolist())[:200]))
         Qd = um.null_space(Mx, Mx.shape[1] - rk)
-        ctx.ensure("null_space(dim):orthonormal-basis-of-the-kernel", np.allclose(Mx @ Qd, 0, atol=1e-9) and np.allclose(Qd.T @ Qd, np.eye(Qd.shape[1]), atol=1e-9), witness=dict(matrix=Mx.tolist()))
+        ctx.ensure("null_space(dim):orthonormal-basis-of-the-kernel", np.allclose(Mx @ Qd, 0, atol=1e-9) and np.allclose(Qd.conj().T @ Qd, np.eye(Qd.shape[1]), atol=1e-9), witness=dict(matrix=str(Mx.tolist())))
+        if rk == 0:
+            continue
         U = um.orth(Mx)
-        ctx.ensure("orth:orthonormal-basis-of-the-range", U.shape == (Mx.shape[0], rk) and np.allclose(U.T @ U, np.eye(rk), atol=1e-9) and np.linalg.matrix_rank(np.hstack([U, Mx])) == rk,
-                   witness=dict(matrix=Mx.tolist(), got=U.tolist()))
+        ctx.ensure("orth:orthonormal-basis-of-the-range", U.shape == (Mx.shape[0], rk) and np.allclose(U.conj().T @ U, np.eye(rk), atol=1e-9) and np.linalg.matrix_rank(np.hstack([U, Mx])) == rk,
+                   witness=dict(matrix=str(Mx.tolist()), got=str(U.tolist())[:200]))
